@@ -401,6 +401,14 @@ def execute_geo(case):
         out["history"] = history.reuse_check(
             lambda a, b: gi.query(a, b, r=r, **qkw),
             (np.array(case["qlat"], dtype=float), np.array(case["qlon"], dtype=float)))
+        if len(case["qlat"]) >= 4:
+            # the same index asked from several threads at once, every call with as many query points
+            # (vt/monitors/concurrency.py): the variants are the query points rolled along their axis
+            from vt.monitors import concurrency
+            ql, qo = np.array(case["qlat"], dtype=float), np.array(case["qlon"], dtype=float)
+            out["concurrent"] = concurrency.concurrent_check(
+                [(gi.query, (np.roll(ql, k), np.roll(qo, k)), dict(qkw, r=r)) for k in range(4)],
+                threads=4, rounds=2)
     return out
 
 
@@ -582,6 +590,11 @@ def check_geo(rec, case, fam=None):
         rec.count("geo.sibling_index_built_before_query")
     if out.get("refilled"):
         rec.count("geo.build_arrays_refilled_after_construction")
+    if out.get("concurrent"):
+        verdict, detail = out["concurrent"]
+        rec.count("geo.concurrent_" + verdict.replace("/", ""))
+        if verdict == "race":
+            viol("query-stale-state", dict(detail, where="queries on one index from 4 threads at once"))
     if out.get("history"):
         verdict, detail = out["history"]
         rec.count("history.reuse_" + verdict.replace("/", ""))
